@@ -69,7 +69,7 @@ SwapLL == <<<<<<69, 50, 48>>, <<78, 49, 48>>>>, <<<<50, 48, 87>>, <<49, 48, 83>>
 Keys == << <<"RhumbSolve", "dir">>, <<"RhumbSolve", "inv">>, <<"TransverseMercatorProj", "fwd">>, <<"TransverseMercatorProj", "rev">>,
            <<"ConicProj", "fwd">>, <<"ConicProj", "rev">>, <<"GeodesicProj", "fwd">>, <<"GeodesicProj", "rev">>,
            <<"CartConvert", "fwd">>, <<"CartConvert", "rev">>, <<"IntersectTool", "c">>, <<"IntersectTool", "n">>,
-           <<"IntersectTool", "i">>, <<"IntersectTool", "o">>, <<"Planimeter", "poly">> >>
+           <<"IntersectTool", "i">>, <<"IntersectTool", "o">>, <<"Planimeter", "poly">>, <<"RhumbSolve", "line">> >>
 Opts == << <<FALSE, 0>>, <<TRUE, 0>>, <<FALSE, 35>> >>                  \* (-w, comment delimiter)
 Cfg(k, o) == [tool |-> Keys[k][1], mode |-> Keys[k][2], w |-> Opts[o][1], cd |-> Opts[o][2]]
 
